@@ -35,6 +35,7 @@ type relayWalker struct {
 	recLevel string
 	recAttrs []string
 	logAttrs [][]string // attrs of each emitted log event, in order
+	asserted map[string]bool // variables bound by `x, ok := w.Origin.(T)` in an if header
 	// deferred function literals in order of appearance
 	deferred map[string]*ast.FuncLit
 }
@@ -75,6 +76,18 @@ func relayExprStr(e ast.Expr) string {
 		return relayExprStr(x.X) + "[" + relayExprStr(x.Index) + "]"
 	case *ast.SliceExpr:
 		return relayExprStr(x.X) + "[:]"
+	case *ast.TypeAssertExpr:
+		return relayExprStr(x.X) + ".(" + relayExprStr(x.Type) + ")"
+	case *ast.InterfaceType:
+		var ms []string
+		if x.Methods != nil {
+			for _, f := range x.Methods.List {
+				for _, n := range f.Names {
+					ms = append(ms, n.Name)
+				}
+			}
+		}
+		return "interface{" + strings.Join(ms, ",") + "}"
 	}
 	return fmt.Sprintf("<%T>", e)
 }
@@ -163,6 +176,20 @@ func (w *relayWalker) ifStmt(s *ast.IfStmt) {
 			}
 		}
 	}
+	if as, ok := s.Init.(*ast.AssignStmt); ok && len(as.Rhs) == 1 && len(as.Lhs) == 2 {
+		// if x, ok := w.Origin.(T); ok { … }
+		if ta, ok := as.Rhs[0].(*ast.TypeAssertExpr); ok && relayExprStr(s.Cond) == relayExprStr(as.Lhs[1]) && relaySelName(ta.X) == "Origin" {
+			if w.asserted == nil {
+				w.asserted = map[string]bool{}
+			}
+			w.asserted[relayExprStr(as.Lhs[0])] = true
+			w.emit("if:isa:%s", relayExprStr(ta.Type))
+			w.block(s.Body.List)
+			w.elseOf(s)
+			w.emit("end")
+			return
+		}
+	}
 	if s.Init != nil {
 		w.stmt(s.Init)
 	}
@@ -237,6 +264,11 @@ func (w *relayWalker) call(c *ast.CallExpr) {
 		w.emit("origin.Write")
 	case relaySelName(c.Fun) == "WriteHeader" && len(c.Args) == 1:
 		w.emit("WriteHeader:%s", w.valStr(c.Args[0]))
+	case relaySelName(c.Fun) == "markFlushed" && len(c.Args) == 0:
+		w.emit("markFlushed")
+	case (relaySelName(c.Fun) == "Flush" || relaySelName(c.Fun) == "FlushError") && len(c.Args) == 0 &&
+		w.asserted[relayExprStr(c.Fun.(*ast.SelectorExpr).X)]:
+		w.emit("origin.%s", relaySelName(c.Fun))
 	default:
 		w.emit("call:%s", fun)
 	}
@@ -554,6 +586,71 @@ func extractRelay() {
 	records := relayIndexPrefix(whEv, "set:Status=code") >= 0 && relayIndexPrefix(whEv, "origin.WriteHeader:code") >= 0
 	l.printf("/-- `WriteHeader(code)`: forwards to the origin and records `Status = code` -/\n")
 	l.printf("def storeWriteHeaderRecords : Bool := %v\n", records)
+
+	// Flush / FlushError: the implicit 200 net/http sends on a flush must be recorded first
+	var mfEv []string
+	if mf := findFunc(sf, "ResponseWriter", "markFlushed"); mf != nil {
+		_, mfEv = walk(mf.Body.List)
+	}
+	inline := func(ev []string) []string {
+		var out []string
+		for _, e := range ev {
+			if e == "markFlushed" {
+				out = append(out, mfEv...)
+			} else {
+				out = append(out, e)
+			}
+		}
+		return out
+	}
+	// flushImplicit: every origin flush of the function is preceded, in its own branch, by
+	// `if Status == a { WriteHeader(b) }` (the same a, b everywhere)
+	flushA, flushB, flushOK := int64(0), int64(0), true
+	nFlush := 0
+	var flushEvs [][]string
+	for _, name := range []string{"Flush", "FlushError"} {
+		fn := findFunc(sf, "ResponseWriter", name)
+		if fn == nil {
+			die("httpd/store.go: ResponseWriter.%s not found", name)
+		}
+		_, ev := walk(fn.Body.List)
+		flushEvs = append(flushEvs, ev)
+		full := inline(ev)
+		for i, e := range full {
+			if e != "origin.Flush" && e != "origin.FlushError" {
+				continue
+			}
+			nFlush++
+			encI := strings.Join(relayEnclosing(full, i), "|")
+			found := false
+			for j := 0; j < i; j++ {
+				b, ok := relayAtoiSuffix(full[j], "WriteHeader:")
+				if !ok {
+					continue
+				}
+				a, ok := relayStatusGuard(full, j)
+				if !ok {
+					continue
+				}
+				encJ := relayEnclosing(full, j)
+				if len(encJ) > 0 && strings.Join(encJ[:len(encJ)-1], "|") == encI && encJ[len(encJ)-1] == fmt.Sprintf("if:Status==%d", a) {
+					if nFlush > 1 && (a != flushA || b != flushB) {
+						flushOK = false
+					}
+					flushA, flushB, found = a, b, true
+				}
+			}
+			if !found {
+				flushOK = false
+			}
+		}
+	}
+	l.printf("\n/-- `(*ResponseWriter).Flush`, `FlushError` and `markFlushed` -/\n")
+	l.printf("def storeFlushEvents : List String := %s\n", relayLeanStrList(flushEvs[0]))
+	l.printf("def storeFlushErrorEvents : List String := %s\n", relayLeanStrList(flushEvs[1]))
+	l.printf("def storeMarkFlushedEvents : List String := %s\n", relayLeanStrList(mfEv))
+	l.printf("/-- every flush of the origin is preceded in its branch by `if Status == a { WriteHeader(b) }` -/\n")
+	l.printf("def storeFlushImplicit : Option (Nat × Nat) := %s\n", relayLeanOptPair(flushOK && nFlush > 0, flushA, flushB))
 	l.write()
 
 	facts["relay.events"] = body
@@ -563,4 +660,6 @@ func extractRelay() {
 	facts["relay.attrs"] = [][]string{firstAttrs(top), firstAttrs(endW), firstAttrs(recW)}
 	facts["relay.storeWrite"] = wEv
 	facts["relay.storeWriteHeader"] = whEv
+	facts["relay.storeFlush"] = flushEvs
+	facts["relay.storeMarkFlushed"] = mfEv
 }
